@@ -284,7 +284,7 @@ impl Prop for ExtractProp {
             .into_iter()
             .map(|(a, d)| {
                 let n = alpha(a).len() as u64;
-                Seg { name: format!("{a}+rw^{d}"), count: n.pow(d), what: format!("one index = one sequence of {d} operations over the {n}-operation alphabet {a} + 3 rewrite-iteration operations; then every live class x identity and every injective renaming of its arguments into a 4-slot pool x three cost functions") }
+                Seg { name: format!("{a}+rw^{d}"), count: n.pow(d), what: format!("one index = one sequence of {d} operations over the {n}-operation alphabet {a} + 4 rewrite-iteration operations; then every live class x identity and every injective renaming of its arguments into a 4-slot pool x three cost functions") }
             })
             .collect()
     }
@@ -292,7 +292,7 @@ impl Prop for ExtractProp {
         vec!["cyclic_class", "class_whose_node_has_redundant_slot", "symmetric_class"]
     }
     fn rule(&self) -> String {
-        "Every ordered sequence of the stated length over union/insert operations plus three rewrite-iteration operations is executed; on the resulting e-graph, for the cost functions AstSize, depth-weighted size (1+2*sum) and a per-operator weighted size: Extractor::new, then for every live class the identity invocation and every injective renaming of its arguments into a 4-slot pool (numeric, textual, $0): extract returns, the result looks up to an invocation eq to the query, cost_rec(result) == get_best_cost == Bellman-Ford least fixpoint over eg.enodes, every free slot of the result is a query argument or a fresh slot above the pre-call watermark; also for every stale handle and through extract()/ast_size_extract(). Non-trivial = execution that did not abort.".into()
+        "Every ordered sequence of the stated length over union/insert operations plus four rewrite-iteration operations (one of them with patterns that repeat a slot) is executed; on the resulting e-graph, for the cost functions AstSize, depth-weighted size (1+2*sum) and a per-operator weighted size: Extractor::new, then for every live class the identity invocation and every injective renaming of its arguments into a 4-slot pool (numeric, textual, $0): extract returns, the result looks up to an invocation eq to the query, cost_rec(result) == get_best_cost == Bellman-Ford least fixpoint over eg.enodes, every free slot of the result is a query argument or a fresh slot above the pre-call watermark; also for every stale handle and through extract()/ast_size_extract(). Non-trivial = execution that did not abort.".into()
     }
     fn assumptions(&self) -> Vec<String> {
         vec!["histories that panic before extraction are counted as aborted (owned by C08)".into(), "cost functions are strictly monotone with u64 costs".into()]
